@@ -3,7 +3,7 @@
 import json, glob, os
 print("| change | breaks | what it is / what it needs | confirmed (suite passes, demo fails with / passes without) | caught by (quick tier) |")
 print("|---|---|---|---|---|")
-for f in sorted(glob.glob('/verif/seeded/*/meta.json')):
+for f in sorted(x for x in glob.glob('/verif/seeded/*/meta.json') if '/_' not in x):
     m = json.load(open(f))
     res = m["checks_run_against_it"]["results"]
     caught = ", ".join(f"{k}: {'VIOLATION' if v['exit']==1 else 'exit '+str(v['exit'])}" for k, v in sorted(res.items())) or "not run yet"
